@@ -307,6 +307,40 @@ where
     if direct == stored && *back.load() != stored {
         return Err(format!("[{}] round trip changed the value: {:?} -> {:?}", name, stored, *back.load()));
     }
+    // (5) the in-place entry point of Deserialize behaves like `*place = deserialize()?`, also
+    // while a guard on the old value is alive: the guard keeps denoting the old value, the old
+    // value keeps exactly the references of its remaining owners
+    {
+        let base = strong_of(&stored);
+        let mut place: ArcSwapAny<K, S> = ArcSwapAny::from(stored.clone());
+        let g = place.load();
+        let mut de = serde_json::Deserializer::from_str(&jp);
+        Deserialize::deserialize_in_place(&mut de, &mut place).map_err(|e| format!("[{}] deserialize_in_place: {}", name, e))?;
+        if *place.load() != direct {
+            return Err(format!("[{}] deserialize_in_place left {:?} in the container, plain deserialization gives {:?}", name, *place.load(), direct));
+        }
+        if *g != stored {
+            return Err(format!("[{}] a guard taken before deserialize_in_place now denotes {:?} instead of {:?}", name, *g, stored));
+        }
+        if let (Some(n), Some(b)) = (strong_of(&stored), base) {
+            // owners of the old value now: whoever owned it before + the guard
+            if n != b + 1 {
+                return Err(format!("[{}] after deserialize_in_place with a live guard the old value has strong count {} (previous owners + the guard = {} expected)", name, n, b + 1));
+            }
+        }
+        drop(g);
+        if let (Some(n), Some(b)) = (strong_of(&stored), base) {
+            if n != b {
+                return Err(format!("[{}] after dropping the guard the old value has strong count {} ({} expected)", name, n, b));
+            }
+        }
+        let full = place.load_full();
+        if let Some(n) = strong_of(&full) {
+            if n != 2 {
+                return Err(format!("[{}] the value deserialized in place has strong count {} (container + this handle = 2 expected)", name, n));
+            }
+        }
+    }
     Ok(())
 }
 
